@@ -74,13 +74,16 @@ type entry struct {
 	nb     datamodel.NodeBuilder // the builder that produced it, when retained
 	enc    []byte                // dag-cbor encoding at birth (nil if not encodable)
 	encJ   []byte                // dag-json encoding at birth (nil if not encodable)
+	sr     *styledReader         // the caller's stream a stream-backed bytes node (or a subset match of one) reads from
+	srOff  int64                 // where this node's bytes begin in that stream
 }
 
 type reader struct {
-	idx  int
-	r    io.ReadSeeker
-	pos  int64
-	open bool
+	idx     int
+	r       io.ReadSeeker
+	pos     int64
+	open    bool
+	gapFrom int64 // >= 0: the last step was a short seek forward from this position (nothing read since)
 }
 
 type world struct {
@@ -474,7 +477,11 @@ func (w *world) spawn(k int) {
 				}
 			}
 		}
-		w.add(n, model.BytesV(b), origin, nil)
+		if idx := w.add(n, model.BytesV(b), origin, nil); idx >= 0 {
+			if sr, ok := rs.(*styledReader); ok {
+				w.pool[idx].sr = sr
+			}
+		}
 		w.st.Inc("probe.stream_bytes_node")
 	case 10: // a reflection-bound node of one of C19's vocabulary shapes, type-level view or representation view
 		var name string
@@ -593,7 +600,7 @@ func (w *world) step(h int, rd *reader, op, a, b, c int) string {
 					break
 				}
 			}
-			*rd = reader{idx: j, r: r, open: true}
+			*rd = reader{idx: j, r: r, open: true, gapFrom: -1}
 			return fmt.Sprintf("open-reader(%s#%d)", w.pool[j].origin, j)
 		}
 		want := w.pool[rd.idx].snap.Bs
@@ -605,20 +612,83 @@ func (w *world) step(h int, rd *reader, op, a, b, c int) string {
 			if err != nil || got != np {
 				w.o.Fail("reader-seek", sig, "Seek(%d) on a large-bytes reader returned (%d, %v)", np, got, err)
 			}
+			rd.gapFrom = -1
+			if np > rd.pos {
+				rd.gapFrom = rd.pos
+			}
 			rd.pos = np
 			return fmt.Sprintf("seek-reader(%s#%d,%d)", w.pool[rd.idx].origin, rd.idx, np)
 		}
 		k := 1 + c%17
 		buf := make([]byte, k)
+		// After a short hop forward the caller's stream may fail ONCE somewhere between the old and the new
+		// position (an implementation that reads through the gap instead of seeking meets it there), or
+		// inside the range about to be read: the read may fail, what it delivered must be right, and the
+		// retry must carry on from the reader's own position.
+		sr := w.pool[rd.idx].sr
+		armed := false
+		if sr != nil && sr.failAt < 0 && a%2 == 0 && int64(len(want)) > rd.pos {
+			// first a look at an earlier byte (every reader step is followed by full re-reads of all nodes,
+			// which leave any position tracking at the end: the hop has to happen inside this step) ...
+			lo := rd.pos
+			if rd.pos > 0 {
+				lo = rd.pos - 1 - int64(a/2)%rd.pos
+				one := make([]byte, 1)
+				if _, err := rd.r.Seek(lo, io.SeekStart); err == nil {
+					if n1, _ := io.ReadFull(rd.r, one); n1 == 1 && one[0] != want[lo] {
+						w.o.Fail("reader-bytes", sig, "a large-bytes reader delivered %x at position %d, the node's byte there is %x", one, lo, want[lo:lo+1])
+					}
+				}
+				lo++
+				rd.r.Seek(rd.pos, io.SeekStart)
+			}
+			// ... then the fault: in the gap hopped over, or in the range about to be read
+			sr.failed = false
+			if gap := rd.pos - lo; gap > 0 && b%2 == 0 {
+				sr.failAt = w.pool[rd.idx].srOff + lo + int64(b/2)%gap
+			} else {
+				sr.failAt = w.pool[rd.idx].srOff + rd.pos + int64(b/2)%int64(k)
+			}
+			armed = true
+		}
+		rd.gapFrom = -1
 		n, err := io.ReadFull(rd.r, buf)
+		if armed {
+			sr.failAt = -1
+		}
 		exp := want[min64(rd.pos, int64(len(want))):]
 		if len(exp) > k {
 			exp = exp[:k]
+		}
+		if armed && sr.failed && n <= len(exp) {
+			exp = exp[:n] // the read was cut short by the fault: what it did deliver must be right
 		}
 		if !bytes.Equal(buf[:n], exp) {
 			w.o.Fail("reader-bytes", sig, "a large-bytes reader at its own position %d delivered %x, the node's bytes there are %x (other holders ran in between; err=%v)", rd.pos, buf[:n], exp, err)
 		}
 		rd.pos += int64(n)
+		if armed && sr.failed {
+			// the transient fault fired: read on at once, from where this reader stands
+			sr.failed = false
+			w.st.Inc("fired.transient_read_error_under_a_reader")
+			if strings.HasPrefix(w.pool[rd.idx].origin, "subset-match") {
+				w.st.Inc("fired.transient_read_error_under_a_reader_of_a_subset_match")
+				if n == 0 {
+					w.st.Inc("probe.fault_before_the_first_byte_of_a_subset_read")
+				}
+			}
+			rest := want[min64(rd.pos, int64(len(want))):]
+			if len(rest) > 8 {
+				rest = rest[:8]
+			}
+			buf2 := make([]byte, len(rest))
+			n2, err2 := io.ReadFull(rd.r, buf2)
+			if !bytes.Equal(buf2[:n2], rest[:n2]) || (err2 == nil && n2 != len(rest)) {
+				w.o.Fail("reader-bytes", sig, "after a transient fault of the caller's stream, a large-bytes reader at its own position %d delivered %x; the node's bytes there are %x (err=%v)", rd.pos, buf2[:n2], rest, err2)
+			}
+			rd.pos += int64(n2)
+			err = nil
+		}
 		w.st.Inc("probe.largebytes_interleaved")
 		if err != nil || rd.pos >= int64(len(want)) {
 			rd.open = false
@@ -1244,6 +1314,9 @@ func (w *world) step(h int, rd *reader, op, a, b, c int) string {
 	case 13: // subset matches on strings and bytes: every match becomes a pooled node
 		ssb := builder.NewSelectorSpecBuilder(basicnode.Prototype.Any)
 		from, ln := int64(b%7), int64(1+c%9)
+		if (b/7)%3 == 0 {
+			ln += 40 + 3*int64(c) // a long range as well (readers hop about inside it)
+		}
 		sel, err := ssb.ExploreRecursive(selector.RecursionLimitNone(), ssb.ExploreUnion(ssb.MatcherSubset(from, from+ln), ssb.ExploreAll(ssb.ExploreRecursiveEdge()))).Selector()
 		if err != nil {
 			return "subset-skip"
@@ -1252,8 +1325,11 @@ func (w *world) step(h int, rd *reader, op, a, b, c int) string {
 			traversal.Progress{Cfg: cfg}.WalkMatching(e.n, sel, func(p traversal.Progress, n datamodel.Node) error {
 				switch n.Kind() {
 				case datamodel.Kind_Bytes:
-					if w.add(n, nil, "subset-match-bytes", nil) >= 0 {
+					if idx := w.add(n, nil, "subset-match-bytes", nil); idx >= 0 {
 						w.st.Inc("probe.subset_match_bytes")
+						if e.sr != nil && e.n.Kind() == datamodel.Kind_Bytes {
+							w.pool[idx].sr, w.pool[idx].srOff = e.sr, e.srOff+from
+						}
 					}
 				case datamodel.Kind_String:
 					if w.add(n, nil, "subset-match-string", nil) >= 0 {
